@@ -5,14 +5,15 @@ from ..fam import history
 
 
 def cases(tier):
-    return history.map_cases(tier, 4) + hashtbl.cases(tier, 'func')
+    from ..fam import strf
+    return history.map_cases(tier, 4) + hashtbl.cases(tier, 'func') + strf.cases(tier, 'C05')
 
 
 def meta(tier):
     i = hashtbl.info(tier)
     return {'level': 'model_checking', 'bounds': i['bounds'],
             'outside': ['ranges and key counts above the bound (the code is uniform in the range: one modulo and one slot array)', 'keys longer than 2 bytes, values longer than 3 bytes (putint: more than 4 digits)',
-                        'putstrf (vsnprintf formatting)', 'the real murmur3 hash (C18); here the hash is an arbitrary function of the key',
+                        'putstrf: only the buffer management around vsnprintf with the format "%s" (strf queries); formatting itself is outside', 'the real murmur3 hash (C18); here the hash is an arbitrary function of the key',
                         'three-call histories through the public API (every triple of put/get/remove/size/clear, symbolic keys out of four and values) complement the one-step queries', 'histories are covered through the inductive argument only: base (constructor) + one step from every valid state within the bound'],
             'stubs': i['stubs'],
             'assumptions': [i['prestate'], 'malloc does not fail here (C15 covers failure)'],
